@@ -37,9 +37,20 @@ type result struct {
 	skips    map[string]int // aspect-level skips by reason
 	openErr  string
 	compared int // compared aspects
+	skipLog  []string
 }
 
 func (r *result) skip(reason string) { r.skips[reason]++ }
+
+// skipAt is skip with the object recorded (development listing only).
+func (c *cmp) skipAt(path, reason string) {
+	c.res.skips[reason]++
+	if devLog {
+		c.res.skipLog = append(c.res.skipLog, c.ddl+" "+path+" "+reason)
+	}
+}
+
+var devLog = false
 
 type cmp struct {
 	f    *hdf5.File
@@ -185,7 +196,12 @@ func (c *cmp) compareBlock(b *Block) {
 		obj, missAt, missName := c.lookup(root, path)
 		if obj == nil {
 			if top.Kind == "group" || top.Kind == "dataset" {
-				if missAt != "" {
+				// an empty block is what h5dump prints (next to an error on stderr) for a path that does not
+				// exist, e.g. tgroup-2.ddl GROUP "/y": only blocks with content prove that the object exists
+				empty := top.Type == nil && top.Space == nil && len(top.Children) == 0 && len(top.Attrs) == 0 && top.Hardlink == ""
+				if empty {
+					c.res.skip("toplevel-empty-block")
+				} else if missAt != "" {
 					c.add(missAt, "member:"+missName, "member-missing:"+top.KindAt(path, missAt, missName),
 						"h5dump dumps %s %q but Children() of %q has no member %q", top.Kind, path, missAt, missName)
 				}
@@ -196,29 +212,10 @@ func (c *cmp) compareBlock(b *Block) {
 		}
 		c.compareObject(top, obj, path, map[*Node]bool{})
 	}
-	for _, a := range b.TopAttrs {
-		// -a dumps: only "/obj/attr" spellings identify the object
-		if !strings.HasPrefix(a.Name, "/") {
-			c.res.skip("toplevel-attribute-without-path")
-			continue
-		}
-		k := strings.LastIndexByte(a.Name, '/')
-		objPath, an := a.Name[:k], a.Name[k+1:]
-		if objPath == "" {
-			objPath = "/"
-		}
-		obj, _, _ := c.lookup(root, objPath)
-		if obj == nil || an == "" {
-			c.res.skip("toplevel-attribute-object-not-found")
-			continue
-		}
-		attrs, ok := c.libAttrs(obj, objPath)
-		if !ok {
-			continue
-		}
-		aa := *a
-		aa.Name = an
-		c.compareOneAttr(&aa, attrs, objPath)
+	for range b.TopAttrs {
+		// -a dumps print only the attribute name ("attr4", or "/attr1" for an attribute literally named
+		// "/attr1"): the owning object is not identified by the DDL, so these blocks are not compared
+		c.res.skip("toplevel-attribute(owner-not-identified)")
 	}
 }
 
@@ -409,7 +406,7 @@ func (c *cmp) compareType(want *DType, got *core.DatatypeMessage, path, aspect s
 	t := c.ix.ResolveType(want)
 	cl, ok := classOf[t.Kind]
 	if !ok {
-		c.res.skip("type-not-understood")
+		c.skipAt(path, "type-not-understood:"+t.Text)
 		return
 	}
 	c.res.compared++
@@ -577,7 +574,7 @@ func (c *cmp) compareOneAttr(a *Attr, attrs []*core.Attribute, path string) bool
 	}
 	want, why := usableData(a.Data, a.Space)
 	if want == nil {
-		c.res.skip("attr-data-" + why)
+		c.skipAt(path+"@"+a.Name, "attr-data-"+why)
 		return true
 	}
 	flat, ok := flattenLib(v)
@@ -594,10 +591,11 @@ func (c *cmp) compareOneAttr(a *Attr, attrs []*core.Attribute, path string) bool
 	}
 	d, cerr := compareSeq(flat, want, t, c.ix)
 	if cerr != nil {
-		c.res.skip("attr-data-not-understood")
+		c.skipAt(path+"@"+a.Name, "attr-data-not-understood")
 		return true
 	}
 	c.res.compared++
+	c.res.skips["+values-compared:Attribute.ReadValue"]++
 	if d != nil {
 		c.add(path, asp+":value", d.kind, "ReadValue(): %s", d.detail)
 	}
@@ -736,9 +734,9 @@ func (c *cmp) compareDataset(n *Node, ds *hdf5.Dataset, path string) {
 		} else if err != nil {
 			c.res.skip("Read-error(allowed)")
 		} else if want == nil {
-			c.res.skip("Read-ok-but-ddl-data-" + why)
+			c.skipAt(path, "Read-ok-but-ddl-data-"+why)
 		} else if t.Kind != "int" && t.Kind != "float" {
-			c.res.skip("Read-ok-on-ddl-type-" + t.Kind)
+			c.skipAt(path, "Read-ok-on-ddl-type-"+t.Kind)
 		} else {
 			flat := make([]any, len(vals))
 			for i, v := range vals {
@@ -746,10 +744,11 @@ func (c *cmp) compareDataset(n *Node, ds *hdf5.Dataset, path string) {
 			}
 			d, cerr := compareSeq(flat, want, t, c.ix)
 			if cerr != nil {
-				c.res.skip("data-not-understood")
+				c.skipAt(path, "data-not-understood")
 			} else {
 				arrays++
 				c.res.compared++
+				c.res.skips["+values-compared:Read"]++
 				if d != nil {
 					c.add(path, "data:Read", d.kind, "Read(): %s", d.detail)
 				}
@@ -765,7 +764,7 @@ func (c *cmp) compareDataset(n *Node, ds *hdf5.Dataset, path string) {
 		} else if err != nil {
 			c.res.skip("ReadStrings-error(allowed)")
 		} else if want == nil {
-			c.res.skip("ReadStrings-ok-but-ddl-data-" + why)
+			c.skipAt(path, "ReadStrings-ok-but-ddl-data-"+why)
 		} else if t.Kind != "string" && t.Kind != "vlstring" {
 			c.res.skip("ReadStrings-ok-on-ddl-type-" + t.Kind)
 		} else {
@@ -775,10 +774,11 @@ func (c *cmp) compareDataset(n *Node, ds *hdf5.Dataset, path string) {
 			}
 			d, cerr := compareSeq(flat, want, t, c.ix)
 			if cerr != nil {
-				c.res.skip("data-not-understood")
+				c.skipAt(path, "data-not-understood")
 			} else {
 				arrays++
 				c.res.compared++
+				c.res.skips["+values-compared:ReadStrings"]++
 				if d != nil {
 					c.add(path, "data:ReadStrings", d.kind, "ReadStrings(): %s", d.detail)
 				}
@@ -794,7 +794,7 @@ func (c *cmp) compareDataset(n *Node, ds *hdf5.Dataset, path string) {
 		} else if err != nil {
 			c.res.skip("ReadCompound-error(allowed)")
 		} else if want == nil {
-			c.res.skip("ReadCompound-ok-but-ddl-data-" + why)
+			c.skipAt(path, "ReadCompound-ok-but-ddl-data-"+why)
 		} else if t.Kind != "compound" {
 			c.res.skip("ReadCompound-ok-on-ddl-type-" + t.Kind)
 		} else {
@@ -804,10 +804,11 @@ func (c *cmp) compareDataset(n *Node, ds *hdf5.Dataset, path string) {
 			}
 			d, cerr := compareSeq(flat, want, t, c.ix)
 			if cerr != nil {
-				c.res.skip("data-not-understood")
+				c.skipAt(path, "data-not-understood")
 			} else {
 				arrays++
 				c.res.compared++
+				c.res.skips["+values-compared:ReadCompound"]++
 				if d != nil {
 					c.add(path, "data:ReadCompound", d.kind, "ReadCompound(): %s", d.detail)
 				}
